@@ -504,6 +504,21 @@ fn locator_siblings(cx: &mut Ctx, loc: &Src) {
             }
         }
     }
+    // the end of a line is the position after its WHOLE line break: wherever find_newline's result is turned into a
+    // line end, the length of the line ending found (1 for LF / CR, 2 for CR LF) is added -- not a constant
+    if let Ok(sc) = sm::load(&cx_repo(), "core/src/source_code.rs") {
+        let t = sm::tsc(&sc.file);
+        let re_site = regex::Regex::new(r"find_newline\(").unwrap();
+        let n_sites = re_site.find_iter(&t).count();
+        // `Some((P, E)) => { .. TextSize::new(Pasu32 + E.len()asu32) .. }` (P possibly re-based first)
+        let re_ok = regex::Regex::new(r"Some\(\((\w+),(\w+)\)\)=>\{[^{}]*?TextSize::new\((\w+)asu32\+(\w+)\.len\(\)asu32\)").unwrap();
+        let good = re_ok.captures_iter(&t).filter(|c| c[1] == c[3] && c[2] == c[4]).count();
+        if n_sites >= 2 && good == n_sites {
+            cx.ok(rule, &format!("{} find_newline sites: line end = break position + length of the line ending found", n_sites));
+        } else {
+            cx.fail(rule, &format!("{}/line-end-convention", rule), &sc.rel, &format!("{} of {} uses of find_newline in source_code.rs compute the line end as `position + line_ending.len()`: with a constant, the end of a CR LF line points into the line break and rows drift on CRLF input", good, n_sites));
+        }
+    }
     // locate_only does not move the cursor: body has no assignment to self.state
     if let Ok(sc) = sm::load(&cx_repo(), "core/src/source_code.rs") {
         if let Some(m) = sc.method("LinearLocator", "locate_only") {
